@@ -274,7 +274,7 @@ def run(pid, tier, seed, replay=None):
                 status[k] = status.get(k, 0) + v
     V.extra["executions"] = len(execs)
     V.extra["exec_status"] = status
-    V.extra["programs"] = sorted({ex[0]["params"]["prog"] for ex in execs})[:80]
+    V.extra["program_list"] = sorted({ex[0]["params"]["prog"] for ex in execs})[:80]
 
     # ---- validation of the recorded executions (layers and chunks in parallel)
     named = [i for i, ex in enumerate(execs) if int(ex[0]["params"].get("rsv", 256)) > 0]   # L2 needs named slot words
